@@ -63,11 +63,18 @@ def layout(lines, variant):
         return esc("\t" + "\n\t\t".join(lines))
     if variant == "continuation":
         return esc(" \\\n".join(lines))
+    if variant == "whitespace-only-lines":      # blank lines that hold blanks and tabs, between and before the real lines
+        return esc("  \n\t\n" + "\n   \n \t \n".join(lines))
+    if variant == "trailing-blanks":
+        return esc("\n".join(l + " \t " for l in lines) + "\n  \n")
+    if variant == "cr-only-and-mixed":           # CR LF on some lines, LF on others, blank CR LF lines
+        return "&#13;&#10;&#13;&#10;".join(esc(l) for l in lines[:1]) + "".join(("&#10;" if k % 2 else "&#13;&#10;") + esc(l) for k, l in enumerate(lines[1:]))
     raise ValueError(variant)
 
 
 LAYOUTS_Q = ["plain", "leading-blank-lines", "crlf-charrefs"]
-LAYOUTS_T = LAYOUTS_Q + ["block-comment", "line-comments", "tabs", "continuation"]
+LAYOUTS_T = LAYOUTS_Q + ["block-comment", "line-comments", "tabs", "continuation", "whitespace-only-lines", "trailing-blanks",
+                         "cr-only-and-mixed"]
 
 
 def render(blocks, variant, only=None):
